@@ -208,9 +208,18 @@ func RunClosed[K any](k *kinds.Kind[K], cfg *Config, res *ev.Result, u kinds.Uni
 					}
 				}
 				if cfg.ClosedAllQueries && cfg.Has(MRange) && k.HasRange {
-					// all ordered pairs of bounds over the universe (present and absent alike)
-					for _, a := range u.Keys {
-						for _, b := range u.Keys {
+					// all ordered pairs of bounds over the universe (present and absent alike),
+					// in the thorough tier also over a neighbour of every universe key
+					bounds := u.Keys
+					if cfg.ClosedNeighbours {
+						nr := unitRng(0xB0, name)
+						bounds = append([]K{}, u.Keys...)
+						for _, key := range u.Keys {
+							bounds = append(bounds, k.Near(nr, key))
+						}
+					}
+					for _, a := range bounds {
+						for _, b := range bounds {
 							s.CheckRange(a, b, "closed_all_pairs")
 							if s.Dead {
 								return
